@@ -134,6 +134,16 @@ func openStorage(dir string, opt Options) (*storage, error) {
 		s.lastLogIndex, s.lastLogTerm = e.index, e.term
 	}
 
+	// the log ends before the latest snapshot: we crashed in onInstallSnapRequest after
+	// storing the snapshot and before (or while) resetting the log. finish the reset now,
+	// the log must be contiguous with the snapshot
+	if s.log.LastIndex() < s.snaps.index {
+		if err = s.log.Reset(s.snaps.index); err != nil {
+			return nil, opError(err, "Log.Reset(%d)", s.snaps.index)
+		}
+		s.lastLogIndex, s.lastLogTerm = s.snaps.index, s.snaps.term
+	}
+
 	// load configs ----------------
 	need := 2
 	for i := s.lastLogIndex; i > s.snaps.index; i-- {
